@@ -31,6 +31,7 @@ class SynthZone(tzinfo):
     on generated inputs.  For the unchanged code the zone is irrelevant: Event converts to UTC on assignment."""
 
     def __init__(self, t_us, before, after, name):
+        self.args = (t_us, before, after, name)
         self.t = datetime(1970, 1, 1) + timedelta(microseconds=t_us)   # naive UTC
         self.before, self.after, self.name = timedelta(minutes=before), timedelta(minutes=after), name
 
@@ -61,11 +62,25 @@ class SynthZone(tzinfo):
     def __repr__(self):
         return f"SynthZone({self.name})"
 
+    def __reduce__(self):            # copyable / picklable like zoneinfo.ZoneInfo (implementations deep-copy events)
+        return (SynthZone, self.args)
+
+    def __deepcopy__(self, memo):
+        return self
+
+    def __eq__(self, other):
+        return isinstance(other, SynthZone) and self.args == other.args
+
+    def __hash__(self):
+        return hash(self.args)
+
 
 ZONES = [timezone.utc, timezone.utc, timezone.utc,
          timezone(timedelta(hours=5, minutes=30)), timezone(timedelta(hours=-8)),
          SynthZone(BASE + 3_000_000, 60, 120, "gap"), SynthZone(BASE + 5_000_000, 120, 60, "fold"),
-         SynthZone(BASE - 2_000_000, -300, -240, "gap-west"), SynthZone(BASE + 40_000_000, 0, -60, "fold-late")]
+         SynthZone(BASE - 2_000_000, -300, -240, "gap-west"), SynthZone(BASE + 40_000_000, 0, -60, "fold-late"),
+         # zones that sit at UTC+0 on one side of the change (London-like): `utcoffset()` is falsy there
+         SynthZone(BASE + 2_000_000, 0, 60, "zero-gap"), SynthZone(BASE + 4_000_000, 60, 0, "zero-fold")]
 
 
 def dt_zoned(us):
